@@ -75,6 +75,15 @@ def scenarios():
     out.append(('the parameter names of an imported function are no names of the importer: it cannot use them',
                 [('scale.pn', scale), ('main.pn', 'import "scale.pn";\n\nfn main() -> i32\n{\n\treturn: scale(1, 2) + factor\n}\n')],
                 {'scale.pn': 'accept', 'main.pn': 'reject'}))
+    out.append(('an imported function is called like a local one: an array is handed to its array-view parameter',
+                [('sum.pn', 'pub fn sum(values: []i32) -> i32\n{\n\treturn: values[0]\n}\n'),
+                 ('main.pn', 'import "sum.pn";\n\nfn main() -> i32\n{\n\tvar a: [3]i32 = [1, 2, 3];\n\treturn: sum(a)\n}\n')], {'sum.pn': 'accept', 'main.pn': 'accept'}))
+    out.append(('an imported word is a word in the importer too: it can be a member of another word',
+                [('half.pn', 'pub word32 Half\n{\n\ta: u16,\n\tb: u16,\n}\n'),
+                 ('main.pn', 'import "half.pn";\n\nword64 Whole\n{\n\tlo: Half,\n\thi: Half,\n}\n\nfn main() -> i32\n{\n\treturn: 0\n}\n')], {'half.pn': 'accept', 'main.pn': 'accept'}))
+    out.append(('an imported structure keeps its members',
+                [('pt.pn', 'pub struct Pt\n{\n\tx: i32,\n\ty: i32,\n}\n\npub fn origin_x(p: Pt) -> i32\n{\n\treturn: p.x\n}\n'),
+                 ('main.pn', 'import "pt.pn";\n\nfn main() -> i32\n{\n\tvar p: Pt = Pt { x: 1, y: 2 };\n\treturn: origin_x(p) + p.y\n}\n')], {'pt.pn': 'accept', 'main.pn': 'accept'}))
     out.append(('mutual imports', [('a.pn', 'import "b.pn";\n\npub fn fa() -> i32\n{\n\treturn: 1\n}\n'), ('b.pn', 'import "a.pn";\n\npub fn fb() -> i32\n{\n\treturn: fa()\n}\n')],
                 {'a.pn': 'accept', 'b.pn': 'accept'}))
     return out
